@@ -24,19 +24,20 @@ const (
 func (r SatResult) String() string { return [...]string{"unsat", "sat", "unknown"}[r] }
 
 type Solver struct {
-	kind    string // z3, z3-new, cvc5
-	cmd     *exec.Cmd
-	in      io.WriteCloser
-	out     *bufio.Reader
-	levels  []solverLevel // one per pushed scope
-	defined map[[2]uint64]int
+	intMode  bool   // integer (bv-as-int) encoding
+	kind     string // z3, z3-new, cvc5
+	cmd      *exec.Cmd
+	in       io.WriteCloser
+	out      *bufio.Reader
+	levels   []solverLevel // one per pushed scope
+	defined  map[[2]uint64]int
 	declared map[string]int
-	base    solverLevel
+	base     solverLevel
 	// stats
-	Queries  int
-	Time     time.Duration
-	Errors   int
-	log      io.Writer
+	Queries   int
+	Time      time.Duration
+	Errors    int
+	log       io.Writer
 	timeoutMs int
 }
 
@@ -136,7 +137,12 @@ func (s *Solver) emit(t *Term) {
 		if _, ok := s.declared[t.name]; ok {
 			return
 		}
-		s.send(fmt.Sprintf("(declare-const %s %s)", smtName(t.name), sortName(t.w)))
+		if s.intMode && t.w > 0 {
+			s.send(fmt.Sprintf("(declare-const %s Int)", smtName(t.name)))
+			s.send(fmt.Sprintf("(assert (and (<= 0 %s) (<= %s %d)))", smtName(t.name), smtName(t.name), mask(t.w)))
+		} else {
+			s.send(fmt.Sprintf("(declare-const %s %s)", smtName(t.name), sortName(t.w)))
+		}
 		s.declared[t.name] = len(s.levels)
 		if n := len(s.levels); n > 0 {
 			s.levels[n-1].decls = append(s.levels[n-1].decls, t.name)
@@ -150,7 +156,15 @@ func (s *Solver) emit(t *Term) {
 	for _, a := range t.args {
 		s.emit(a)
 	}
-	s.send(fmt.Sprintf("(define-fun %s () %s %s)", t.defName(), sortName(t.w), t.body()))
+	if s.intMode {
+		srt := "Int"
+		if t.w == 0 {
+			srt = "Bool"
+		}
+		s.send(fmt.Sprintf("(define-fun %s () %s %s)", t.defName(), srt, t.intBody()))
+	} else {
+		s.send(fmt.Sprintf("(define-fun %s () %s %s)", t.defName(), sortName(t.w), t.body()))
+	}
 	s.defined[k] = len(s.levels)
 	if n := len(s.levels); n > 0 {
 		s.levels[n-1].defs = append(s.levels[n-1].defs, k)
@@ -161,7 +175,7 @@ func (s *Solver) emit(t *Term) {
 func (s *Solver) Assert(t *Term) {
 	s.push(t)
 	s.emit(t)
-	s.send("(assert " + t.ref() + ")")
+	s.send("(assert " + t.ref2(s.intMode) + ")")
 }
 
 // SyncTo pops scopes until the permanent conjuncts form a prefix of pc, and
@@ -182,12 +196,18 @@ func (s *Solver) SyncTo(pc []*Term) int {
 // If wantModel and the result is Sat, the values of vars are returned.
 func (s *Solver) Check(extra []*Term, vars []*Term, wantModel bool) (SatResult, Model) {
 	start := time.Now()
-	defer func() { s.Time += time.Since(start); s.Queries++ }()
+	defer func() {
+		d := time.Since(start)
+		s.Time += d
+		s.Queries++
+		liveSolverNs.Add(int64(d))
+		liveQueries.Add(1)
+	}()
 	if len(extra) > 0 {
 		s.push(nil)
 		for _, e := range extra {
 			s.emit(e)
-			s.send("(assert " + e.ref() + ")")
+			s.send("(assert " + e.ref2(s.intMode) + ")")
 		}
 		defer s.pop()
 	}
@@ -301,6 +321,20 @@ func parseModel(txt string, m Model) error {
 		case toks[i] == "false":
 			val = 0
 			i++
+		case toks[i][0] >= '0' && toks[i][0] <= '9':
+			v, err := strconv.ParseUint(toks[i], 10, 64)
+			if err != nil {
+				return err
+			}
+			val = v
+			i++
+		case toks[i] == "(" && toks[i+1] == "-":
+			v, err := strconv.ParseUint(toks[i+2], 10, 64)
+			if err != nil {
+				return err
+			}
+			val = -v
+			i += 4
 		case strings.HasPrefix(toks[i], "#x"):
 			v, err := strconv.ParseUint(toks[i][2:], 16, 64)
 			if err != nil {
